@@ -54,6 +54,7 @@ func genC04(seed uint64, tier string) *Plan {
 	p.Knobs["p_reject"] = []float64{0.1, 0.2, 0.35}[r.intn(3)]
 	p.Knobs["p_ignore"] = []float64{0.05, 0.15, 0.25}[r.intn(3)]
 	p.Knobs["p_weird"] = []float64{0, 0.05, 0.1}[r.intn(3)]
+	p.Knobs["val_ctx_keep"] = float64(r.intn(2))
 	nt := p.ki("ntopics", 1)
 	add := func(op string, a ...int64) { p.Items = append(p.Items, Item{Op: op, A: a}) }
 	add("node-sub", 0)
@@ -107,8 +108,12 @@ func genC04(seed uint64, tier string) *Plan {
 			add("adv", 5)
 			add("open", i)
 			add("sub", i, t)
-		case x < 95:
+		case x < 94:
 			add("adv", int64(r.rng(900, 3000)))
+		case x < 96:
+			// the author (not the forwarder) of a message that may sit in validation is blacklisted
+			add("fwd", i, t, int64(r.rng(8, 120)), int64((int(i)+1)%np))
+			add("blacklist", int64((int(i)+1)%np))
 		default:
 			add("release-all")
 		}
@@ -331,7 +336,23 @@ func runC04(s *sim) {
 					live++
 				}
 			}
-			if allAccept {
+			// a message whose author or a forwarder was blacklisted during the run is dropped wherever the
+			// blacklist is consulted (before validation, and again when it leaves the pipeline): it is
+			// exempt from "accepted implies delivered" and from the LOWER bounds on penalties; nothing
+			// it causes may exceed the upper bounds
+			touched := false
+			if m := w.sent[mid]; m != nil && w.blacklisted[peer.ID(m.GetFrom())] {
+				touched = true
+			}
+			for _, c := range copies[mid] {
+				if w.blacklisted[c.from] {
+					touched = true
+				}
+			}
+			if touched {
+				s.probe("message_touched_by_blacklist")
+			}
+			if allAccept && !touched {
 				s.probe("verdict_accept")
 				for _, ss := range w.n.subs {
 					if ss.topic == topic && !ss.canc && deliv[mid][ss.id] != 1 {
@@ -359,7 +380,7 @@ func runC04(s *sim) {
 						s.probe("forward_checked")
 					}
 				}
-			} else {
+			} else if !allAccept {
 				if nd != 0 {
 					s.violate("C04", "deliver", "C04/delivered-without-accept", "message %x delivered %d times although verdicts were %v (applicable %v, queue/throttle reasons %v)", sh, nd, ran, app, reasons[mid])
 				}
@@ -393,7 +414,7 @@ func runC04(s *sim) {
 				for id, n := range per {
 					k := string(id) + "|" + topic
 					expectInvalidMax[k] += n
-					if steady[id] {
+					if steady[id] && !touched {
 						expectInvalidMin[k]++
 					}
 				}
